@@ -44,7 +44,7 @@ static void null_cb_noop(void) {}
 
 /* run one input through the implementation and judge it */
 static void run_input(const uint8_t* b, size_t n, bool count_distinct) {
-  vf_case("load", b, n);
+  vf_case(va_cap > (1u << 20) ? "load-corpus" : "load", b, n); /* the tag carries the allocator cap the case ran under */
   vf_cnt(VC_EVAL, 1);
   vf_cnt(VC_TRACES, 1);
   rdecode rd;
@@ -324,7 +324,7 @@ static void init(void) {
 }
 
 static void replay(const char* tag, const uint8_t* data, size_t len) {
-  (void)tag;
+  va_cap = strcmp(tag, "load-corpus") ? cap_dfs : 1ull << 30;
   vf_sb s = {0};
   rdecode rd;
   ref_arena_reset();
